@@ -114,6 +114,21 @@ func c10Isolation(c *Chooser, env *Env, defective, faults bool) *Outcome {
 			}
 		}
 	}
+	if !faults && c.Weighted("world.tools", 1, 4) {
+		// the shellcheck / pyflakes integrations are on (working installations): file workers and
+		// tool processes then compete for CPUs-many slots
+		w.Tools = &Tools{}
+		w.Opts.Shellcheck, w.Opts.Pyflakes = "shellcheck", "pyflakes"
+		o.probe("tools_enabled", 1)
+	}
+	switch c.Int("world.outmode", 5) {
+	case 1:
+		w.Opts.Oneline = true
+	case 2:
+		w.Opts.Format = "{{json .}}"
+	case 3:
+		w.Opts.Format = "{{range $ := .}}{{$.Filepath}}:{{$.Line}}:{{$.Column}}: {{$.Message}} [{{$.Kind}}]\n{{end}}"
+	}
 	if c.Weighted("world.workingdiropt", 1, 6) {
 		// a library caller that passes LinterOptions.WorkingDir while its process runs somewhere
 		// else (another repository of the world, or /): arguments are absolute
